@@ -139,10 +139,11 @@ func oracleFor(vs ...*V) *Oracle {
 
 // ---- script-level evaluation
 var (
-	sparser  *parser.Parser
-	emitted  []data.Value
-	caught   int
-	uncaught int
+	sparser    *parser.Parser
+	emitted    []data.Value
+	caught     int
+	uncaught   int
+	inTryShape bool
 )
 
 type emitFn struct{}
@@ -160,6 +161,13 @@ func (emitFn) GetVariables() []data.Variable {
 	return []data.Variable{node.NewVariable(nil, "v", 0, data.NewBaseType("mixed"))}
 }
 
+type voidFn struct{}
+
+func (voidFn) Call(c data.Context) (data.GetValue, data.Control) { return nil, nil }
+func (voidFn) GetName() string                                   { return "c03_void" }
+func (voidFn) GetParams() []data.GetValue                        { return nil }
+func (voidFn) GetVariables() []data.Variable                     { return nil }
+
 type caughtFn struct{}
 
 func (caughtFn) Call(c data.Context) (data.GetValue, data.Control) { caught++; return nil, nil }
@@ -174,6 +182,8 @@ var opSym = map[string]string{"add": "+", "sub": "-", "mul": "*", "quo": "/", "r
 // literal source text of an operand (only values that have one)
 func lit(v *V) (string, bool) {
 	switch v.K {
+	case "nil":
+		return "c03_void()", true // a call that returns nothing
 	case "null":
 		return "null", true
 	case "bool":
@@ -229,16 +239,24 @@ func runStmt(src string) (o Obs) {
 	c := vm.CreateContext(sparser.GetVariables())
 	_, ctl := prog.GetValue(c)
 	if ctl != nil {
+		if inTryShape {
+			return Obs{Out: "panic", Msg: "control escaped try/catch: " + ctl.AsString()}
+		}
 		if _, ok := ctl.(*data.ThrowValue); ok {
 			return Obs{Out: "throw", Msg: ctl.AsString()}
 		}
 		return Obs{Out: "control", Msg: fmt.Sprintf("%T", ctl)}
 	}
-	if uncaught > 0 {
-		return Obs{Out: "throw", Msg: "uncaught (ThrowControl)"}
-	}
 	if caught > 0 {
 		return Obs{Out: "throw", Msg: "caught"}
+	}
+	if uncaught > 0 {
+		if inTryShape {
+			// the statement sits inside try { } catch (\Throwable $e): an error that gets past the
+			// catch is not a catchable error
+			return Obs{Out: "panic", Msg: "throw escaped try/catch"}
+		}
+		return Obs{Out: "throw", Msg: "uncaught (ThrowControl)"}
 	}
 	if len(emitted) != 1 {
 		return Obs{Out: "panic", Msg: fmt.Sprintf("emitted %d values", len(emitted))}
@@ -268,6 +286,8 @@ func scriptOps(l, r *V, shape string) []Obs {
 		return nil
 	}
 	var res []Obs
+	inTryShape = shape == "try"
+	defer func() { inTryShape = false }()
 	for _, op := range binOps {
 		o := " " + opSym[op] + " "
 		var src string
@@ -314,8 +334,23 @@ var (
 	clsStmt data.ClassStmt
 )
 
+// nilNode evaluates to (nil, nil): what a call of a function without a result yields
+type nilNode struct{}
+
+func (nilNode) GetValue(data.Context) (data.GetValue, data.Control) { return nil, nil }
+
+// operand node for a value: the value itself, or nilNode for the "nil" kind
+func opnd(v *V) data.GetValue {
+	if v.K == "nil" {
+		return nilNode{}
+	}
+	return mk(v)
+}
+
 func mk(v *V) data.Value {
 	switch v.K {
+	case "nil":
+		return nil
 	case "null":
 		return data.NewNullValue()
 	case "bool":
@@ -452,7 +487,7 @@ func (c counter) GetValue(data.Context) (data.GetValue, data.Control) {
 
 // once yields v the first time it is evaluated and false afterwards (loop conditions).
 type once struct {
-	v    data.Value
+	v    data.GetValue
 	used *bool
 }
 
@@ -461,7 +496,7 @@ func (o once) GetValue(data.Context) (data.GetValue, data.Control) {
 		return data.NewBoolValue(false), nil
 	}
 	*o.used = true
-	return o.v, nil
+	return o.v.GetValue(nil)
 }
 
 func finish(g data.GetValue, c data.Control) Obs {
@@ -488,7 +523,7 @@ func boolObs(g data.GetValue, c data.Control) Obs {
 	return o
 }
 
-func runCtx(op string, v data.Value) Obs {
+func runCtx(op string, v data.GetValue) Obs {
 	n := 0
 	hit := counter{&n}
 	switch op {
@@ -604,8 +639,8 @@ func runCase(c Case) (o Obs) {
 		res := Obs{Out: "pair", Orc: oracleFor(c.L, c.R)}
 		for _, op := range binOps {
 			op := op
-			res.LR = append(res.LR, safe(func() Obs { return finish(binNode(op, mk(c.L), mk(c.R)).GetValue(ctx)) }))
-			res.RL = append(res.RL, safe(func() Obs { return finish(binNode(op, mk(c.R), mk(c.L)).GetValue(ctx)) }))
+			res.LR = append(res.LR, safe(func() Obs { return finish(binNode(op, opnd(c.L), opnd(c.R)).GetValue(ctx)) }))
+			res.RL = append(res.RL, safe(func() Obs { return finish(binNode(op, opnd(c.R), opnd(c.L)).GetValue(ctx)) }))
 		}
 		return res
 	case "spair":
@@ -620,21 +655,21 @@ func runCase(c Case) (o Obs) {
 		res := Obs{Out: "same", Orc: oracleFor(c.L)}
 		for _, op := range binOps {
 			op := op
-			res.LR = append(res.LR, safe(func() Obs { v := mk(c.L); return finish(binNode(op, v, v).GetValue(ctx)) }))
+			res.LR = append(res.LR, safe(func() Obs { v := opnd(c.L); return finish(binNode(op, v, v).GetValue(ctx)) }))
 		}
 		return res
 	case "uns":
 		res := Obs{Out: "uns", Orc: oracleFor(c.L)}
 		for _, op := range unOps {
 			sym := map[string]string{"neg": "-", "not": "!", "bnot": "~"}[op]
-			res.LR = append(res.LR, safe(func() Obs { return finish(node.NewUnaryExpression(from, sym, mk(c.L)).GetValue(ctx)) }))
+			res.LR = append(res.LR, safe(func() Obs { return finish(node.NewUnaryExpression(from, sym, opnd(c.L)).GetValue(ctx)) }))
 		}
 		return res
 	case "ctxs":
 		res := Obs{Out: "ctxs"}
 		for _, op := range ctxOps {
 			op := op
-			res.LR = append(res.LR, safe(func() Obs { return runCtx(op, mk(c.L)) }))
+			res.LR = append(res.LR, safe(func() Obs { return runCtx(op, opnd(c.L)) }))
 		}
 		return res
 	}
@@ -665,6 +700,10 @@ func main() {
 	vm.SetThrowControl(func(acl data.Control) { uncaught++ })
 	if ctl := vm.AddFunc(emitFn{}); ctl != nil {
 		fmt.Fprintln(os.Stderr, "setup: c03_emit:", ctl.AsString())
+		os.Exit(2)
+	}
+	if ctl := vm.AddFunc(voidFn{}); ctl != nil {
+		fmt.Fprintln(os.Stderr, "setup: c03_void:", ctl.AsString())
 		os.Exit(2)
 	}
 	if ctl := vm.AddFunc(caughtFn{}); ctl != nil {
